@@ -57,7 +57,7 @@ ob("enc_a85_word_value", ["C05", "C16"], "enc.rs", functions=["enc::word_85", "e
 for p_ in range(0, 7):
     ob("enc_a85_dec_p%d" % p_, ["C05", "C16"], "enc.rs", unwind=p_ + 4, cuts=X1_ERR, stubs=[FMT_STUB],
        unwindset=[(r"verif_h_enc::same$", 0, max(4, 4 * p_) + 2)],
-       tier="quick" if p_ <= 2 else "thorough", timeout=2400,
+       tier="quick" if p_ <= 2 else ("thorough" if p_ <= 4 else "infeasible"), timeout=2400, mem_gb=16,
        functions=["enc::decode_85", "enc::word_85", "enc::sym_85"],
        bound="all inputs of %d arbitrary bytes followed by the EOD marker '~>'" % p_)
 ob("enc_w_a85_ws", ["C05"], "enc.rs", unwind=8, cuts=X1_ERR, stubs=[FMT_STUB],
@@ -68,7 +68,7 @@ for l in (3, 4):
        bound="all byte strings of length %d (no EOD marker required): no panic" % l)
 for n in range(0, 4):
     ob("enc_a85_enc_n%d" % n, ["C16"], "enc.rs", unwind=10, cuts=X1_ERR, timeout=1800,
-       tier="quick" if n <= 2 else "thorough",
+       tier="quick" if n <= 2 else "infeasible",
        functions=["enc::encode_85", "enc::base85_chunk", "enc::divmod", "enc::a85"],
        bound="all inputs of %d bytes; output checked against the reference ASCII85 decoder" % n)
 for l in (1, 2, 3, 4):
@@ -306,7 +306,7 @@ for n in (0, 1, 2, 3):
        bound="every string of %d bytes: the serialised token decodes to the same bytes under the reference literal/hex string "
              "decoder; serialising does not panic" % n)
 
-for h, t in (("prim_name_ser_n1", "quick"), ("prim_name_ser_n2", "quick"), ("prim_name_ser_utf8", "thorough")):
+for h, t in (("prim_name_ser_n1", "quick"), ("prim_name_ser_n2", "quick"), ("prim_name_ser_utf8", "infeasible")):
     ob(h, ["C04"], "primitive.rs", unwind=9, cuts=X1_ALL, stubs=[FMT_STUB], timeout=1800, mem_gb=12, tier=t,
        functions=["primitive::serialize_name"],
        bound="%s: the serialised name token consists of regular characters only and decodes (#xx) to the same bytes; no panic" %
